@@ -965,6 +965,16 @@ fn gen_c04_case(r: &mut Rng, max_n: usize, max_thr: usize, long: bool, stats: &m
             } else {
                 vec![ops::gen_leaf(r, &c, within)]
             };
+            // a chain `g1 * g2 * .. * gk` of 2..14 single gates (the queue then has whatever spare capacity repeated `*`
+            // leaves; products of a short chain with a longer one exercise every fast path of `*` / `*=`)
+            if r.chance(1, 3) {
+                let k = r.range(2, 14);
+                p = vec![ops::gen_leaf(r, &cfg, within)];
+                for _ in 1..k {
+                    p.push(ops::gen_leaf(r, &cfg, within));
+                    p.push(ops::Tok::Mul);
+                }
+            }
             // long products
             if long && r.chance(1, 4) {
                 let k = r.range(50, 400);
